@@ -491,3 +491,66 @@ def feasible(path):
                 if r[0].value != pol:
                     return False
     return True
+
+
+def const_value(node, frame, _d=0):
+    """Constant truth value of a test expression whose names are bound (through
+    the frame chain) to constants; None when unknown."""
+    if _d > 10:
+        return None
+    if isinstance(node, ast.Constant):
+        return bool(node.value)
+    if isinstance(node, ast.UnaryOp) and isinstance(node.op, ast.Not):
+        v = const_value(node.operand, frame, _d + 1)
+        return None if v is None else not v
+    if isinstance(node, ast.Name) and frame is not None and node.id in frame.binding:
+        ex, fr = frame.binding[node.id]
+        if isinstance(ex, ast.Constant):
+            return bool(ex.value)
+        if fr is not None:
+            return const_value(ex, fr, _d + 1)
+        return None
+    if isinstance(node, ast.BoolOp):
+        vals = [const_value(v, frame, _d + 1) for v in node.values]
+        if isinstance(node.op, ast.And):
+            if any(v is False for v in vals):
+                return False
+            if all(v is True for v in vals):
+                return True
+        else:
+            if any(v is True for v in vals):
+                return True
+            if all(v is False for v in vals):
+                return False
+    return None
+
+
+def feasible_consts(path):
+    for e in path.events:
+        if e.kind == 'test':
+            v = const_value(e.node, e.frame)
+            if v is not None and v != e.pol:
+                return False
+    return True
+
+
+def world_frame(func, consts):
+    """top-level frame in which some parameters are bound to constants"""
+    b = {k: (ast.Constant(value=v), None) for k, v in consts.items()}
+    for p, d in func.defaults.items():
+        if p not in b and isinstance(d, ast.Constant) and isinstance(d.value, (bool, str)):
+            b[p] = (d, None)
+    return Frame(func, None, b)
+
+
+def split_segments(events):
+    """cut a path's event list at top-frame yields (depth-0 stmt events that contain a yield)"""
+    segs, cur = [], []
+    for e in events:
+        cur.append(e)
+        if e.kind == 'stmt' and e.frame.depth == 0 and contains_yield(e.node):
+            segs.append(cur)
+            cur = []
+    if cur:
+        segs.append(cur)
+    return segs
